@@ -81,15 +81,17 @@ class ProxyWorld:
         self.viewers = []
         for v in range(n_viewers):
             caddr = ("127.0.0.%d" % (v + 1), 5000 + v)
-            regions = [("10.0.%d.1" % v, 13000 + r) for r in range(n_regions)]
+            # (simulator ports are anywhere in the 16-bit range: the second region sits above 32767)
+            regions = [("10.0.%d.1" % v, 13000 + r if r != 1 else 45001) for r in range(n_regions)]
             sess = self.sm.create_session({
                 "session_id": UUID(int=0x1000 + v), "secure_session_id": UUID(int=0x2000 + v), "agent_id": UUID(int=0x3000 + v),
                 "circuit_code": 1234 + v, "sim_ip": regions[0][0], "sim_port": regions[0][1],
                 "region_x": 1000 + v, "region_y": 2000, "seed_capability": "https://sim%d.example/seed0" % v,
             })
             for r in range(1, n_regions):
+                # (a neighbour announced by address and seed only has no handle until its handshake: the third region is one)
                 sess.register_region(circuit_addr=regions[r], seed_url="https://sim%d.example/seed%d" % (v, r),
-                                     handle=((1000 + v) << 32) | (2000 + r))
+                                     handle=(((1000 + v) << 32) | (2000 + r)) if r != 2 else None)
             proto = InterceptingLLUDPProxyProtocol(caddr, self.sm)
             sock = FakeSock(self.wire, v)
             proto.transport = SOCKS5UDPTransport(sock)
